@@ -165,6 +165,7 @@ func cmdCheck(args []string) int {
 	discharged := 0
 	violations := 0
 	knownHit := map[string]bool{}
+	reported := map[string]bool{}
 	replayDir := filepath.Join(o.verif, "replays")
 	var samples []any
 	backends := map[string]int{}
@@ -205,6 +206,10 @@ func cmdCheck(args []string) int {
 			}
 			continue
 		}
+		if reported[g.name] {
+			continue
+		}
+		reported[g.name] = true
 		violations++
 		rp := writeReplay(o, replayDir, g.name, g.failed[0], out)
 		suffix := ""
